@@ -36,11 +36,14 @@ RULE = ("(a)+(b): Hypothesis draws well-formed definition closures (vlib.defgen.
         "value tree must equal those of the original.  (a') sequences of 2-4 different closures (plain builder of the generator, seeded from "
         "VERIF_SEED) are compiled one after the other by ONE long-lived interpreter and each also by a fresh interpreter (same black mode, "
         "different PYTHONHASHSEED): all six outputs of every closure must be byte-identical, and the combined YAML the long-lived process "
-        "wrote for the last closure goes through the same command-line round trip.  (c): the shipped core YAML files are compiled with the options the package uses "
+        "wrote for the last closure goes through the same command-line round trip.  A third process drives ONE Parser object through the "
+        "same sequence (all closures of a sequence share the three options): clear(), parse(), then the six back ends exactly as compile() "
+        "builds them, with - in half of the steps - a copy of the closure carrying an injected fault (missing import, message without "
+        "id/fields, signal as field type) parsed and aborted first; again all six outputs must equal the fresh parser's.  (c): the shipped core YAML files are compiled with the options the package uses "
         "(output name core_defs, IMPORT_COREDEFS false) and compared with the shipped core_defs.py by ast.dump and by the imported "
         "signature; then N generated single edits (constant value, field type, message id, field order, field name, array length, "
         "module/host id, alias target) of a scratch copy must each make that comparison fail.  Non-trivial = accepted program with >=2 "
-        "files and >=1 padded struct (a)/(b), a closure compiled after >=1 different closure in the same process (a'), or a detected edit (c); distinct = (graph shape, #files, options, black?, classes) or (edit kind, target).")
+        "files and >=1 padded struct (a)/(b), a closure compiled after >=1 different closure in the same process or by a Parser object used (or aborted) before (a'), or a detected edit (c); distinct = (graph shape, #files, options, black?, classes) or (edit kind, target).")
 ASSUME = [
     "the first line of the .txt info output is a comment holding the output file's own path relative to the definition root; it is compared after removing that path (it must differ when the output directory differs)",
     "checked on the unchanged tree: nothing but that first .txt line depends on how the root file's path is spelled (symlinks, relative/absolute, ..)",
@@ -326,13 +329,16 @@ SEQ_KW = [dict(), dict(skeleton=True), dict(skeleton=True, rich=True), dict(rich
           dict(skeleton=True, allow=("alias-of-imported-struct", "alias-of-imported-struct-field", "struct-contains-message", "string-special", "prefix-names"))]
 
 
-def run_sequence(E: L.Examiner, programs, black: bool, hashseed: int, res: Result = None):
+def run_sequence(E: L.Examiner, programs, black: bool, hashseed: int, res: Result = None, faults=None):
     """-> [(key, what, index)]: closure i is compiled by a long-lived worker that has already compiled closures 0..i-1
     and, independently, by a fresh interpreter; the six outputs must be byte-identical.  The combined YAML the worker
     wrote for the LAST closure then goes through the command-line round trip (b)."""
     out = []
     with L.Work() as w:
         worker = L.CompileWorker(cwd=w.sub("worker_cwd"), hashseed=str(hashseed))
+        reuser = L.CompileWorker(cwd=w.sub("reuser_cwd"), hashseed=str(hashseed + 1))  # ONE Parser object for the whole sequence
+        reused_before = aborted_before = 0
+        same_opts = all(p.compile_kwargs() == programs[0].compile_kwargs() for p in programs)
         try:
             compiled_before = 0
             for i, program in enumerate(programs):
@@ -368,22 +374,64 @@ def run_sequence(E: L.Examiner, programs, black: bool, hashseed: int, res: Resul
                         out.append((f"history/bytes-differ/{ext}", f"closure {i} compiled by a process that had compiled {compiled_before} other closure(s) before gives a "
                                     f"gdefs{L.OUT_EXT[ext]} different from a fresh process' ({len(a)} vs {len(b)} bytes): {_first_diff(a, b)}", i))
                 compiled_before += 1
+                # ---- the same closure from a Parser OBJECT that has been used before (clear() + parse() + the six back ends)
+                if same_opts:
+                    try:
+                        if faults and faults[i] is not None:
+                            froot = faults[i].write(w.sub(f"tree_fault{i}"))
+                            rcx, _e = reuser.compile(froot, w.sub(f"out_fault{i}"), "gdefs", black, reuse_parser=True, **opts)
+                            aborted_before += 1 if rcx != 0 else 0
+                        out_r = w.sub(f"out_reused{i}")
+                        rcr, errr = reuser.compile(root, out_r, "gdefs", black, reuse_parser=True, **opts)
+                    except L.ToolTimeout:
+                        if res is not None:
+                            res.inconclusive += 1
+                        return out
+                    if rcr != 0:
+                        out.append(("history/reused-parser/rejected", f"closure {i}: a Parser object that parsed {reused_before} closure(s) and aborted on {aborted_before} before "
+                                    f"(clear() in between) refuses what a fresh parser accepts: {errr}", i))
+                    else:
+                        for ext in EXTS:
+                            a, b = _read(os.path.join(out_f, "gdefs" + L.OUT_EXT[ext])), _read(os.path.join(out_r, "gdefs" + L.OUT_EXT[ext]))
+                            if ext == "txt":
+                                a, b = _norm_txt(a), _norm_txt(b)
+                            if a != b:
+                                out.append((f"history/reused-parser/bytes-differ/{ext}", f"closure {i} from a Parser object that parsed {reused_before} other closure(s) and aborted on "
+                                            f"{aborted_before} before (clear() in between) gives a gdefs{L.OUT_EXT[ext]} different from a fresh parser's "
+                                            f"({len(a)} vs {len(b)} bytes): {_first_diff(a, b)}", i))
+                        if res is not None:
+                            res.count("reused-parser-closures-compared")
+                            if reused_before or aborted_before:
+                                res.count("reused-parser-closures-after-another")
+                                res.shape("reuse", program.shape, len(program.files), tuple(sorted(opts.items())), reused_before, aborted_before)
+                            if aborted_before:
+                                res.count("reused-parser-closures-after-aborted-parse")
+                    reused_before += 1
                 if i == len(programs) - 1:
                     for key, what in roundtrip(E, program, os.path.join(out_w, "gdefs_combined.yaml"), out_f, w, res, tag=f"_seq{i}"):
                         out.append((key.replace("combined/", "combined-late/", 1) if not key.startswith("combined/recompile-fails/") else key,
                                     f"(combined YAML written as closure {i} of a sequence) {what}", i))
         finally:
             worker.close()
+            reuser.close()
     return out
 
 
 def make_sequence(seed, length):
+    """-> (programs, faults): all closures of a sequence are compiled with the same three options (one Parser object is
+    reused for them); faults[i] is None or a copy of closure i with an injected fault that aborts the parse half way."""
     rnd = random.Random(seed)
-    progs = []
+    opts = dict(import_coredefs=rnd.random() < 0.5, auto_pad=rnd.random() < 0.75, validate_alignment=rnd.random() < 0.8)
+    progs, faults = [], []
     for k in range(length):
-        kw = SEQ_KW[rnd.randrange(len(SEQ_KW))]
-        progs.append(G.random_program(rnd.randrange(1 << 30), **kw))
-    return progs
+        kw = dict(SEQ_KW[rnd.randrange(len(SEQ_KW))], **opts)
+        p = G.random_program(rnd.randrange(1 << 30), **kw)
+        progs.append(p)
+        f = None
+        if k > 0 and rnd.random() < 0.5:
+            f = G.inject_fault(p, rnd.choice(G.FAULT_KINDS), G.RandomChooser(rnd.randrange(1 << 30)), where=rnd.choice([None, "root", "leaf"]))
+        faults.append(f)
+    return progs, faults
 
 
 def shard_sequences(seed, n, idx, n_black):
@@ -393,16 +441,17 @@ def shard_sequences(seed, n, idx, n_black):
     try:
         for k in range(n):
             sseed, length = rnd.randrange(1 << 30), rnd.choice([2, 2, 3, 3, 4])
-            progs = make_sequence(sseed, length)
+            progs, faults = make_sequence(sseed, length)
             black = k < n_black
             hs = 1 + rnd.randrange(4000000)
-            fnd = run_sequence(E, progs, black, hs, res)
+            fnd = run_sequence(E, progs, black, hs, res, faults)
             res.evaluations += length
             res.count("sequences")
             res.count(f"sequence-length/{length}")
             for key, what, i in fnd:
                 # the trace keeps the closures up to the one that failed
-                res.add_finding(key, what, {"key": key, "kind": "sequence", "programs": [p.to_json() for p in progs[: i + 1]], "black": black, "hashseed": hs})
+                res.add_finding(key, what, {"key": key, "kind": "sequence", "programs": [p.to_json() for p in progs[: i + 1]],
+                                             "faults": [f.to_json() if f is not None else None for f in faults[: i + 1]], "black": black, "hashseed": hs})
             if len(res.samples) < 1:
                 res.sample({"sequence": [{"shape": p.shape, "options": p.options, "files": len(p.files)} for p in progs], "black": black, "hashseed": hs})
     finally:
@@ -616,7 +665,8 @@ def replay_trace(trace: dict):
     try:
         if trace.get("kind") == "sequence":
             progs = [G.Program.from_json(p) for p in trace["programs"]]
-            fnd = [(k, w) for k, w, _i in run_sequence(E, progs, trace.get("black", False), trace.get("hashseed", 12345), None)]
+            faults = [G.Program.from_json(f) if f else None for f in trace.get("faults") or [None] * len(progs)]
+            fnd = [(k, w) for k, w, _i in run_sequence(E, progs, trace.get("black", False), trace.get("hashseed", 12345), None, faults)]
         elif trace.get("kind") == "core":
             fnd = [(f"core/{a}", t) for a, t in compare_core(E, os.path.join(_pkg(), "core_defs"))]
         else:
